@@ -56,10 +56,10 @@ func (s *Sched) point(site string, idx int) {
 		h ^= h >> 32
 		switch {
 		case h%8 < 3:
-		case h%8 < 6 || mode == 1:
+		case h%8 < 7 || mode == 1:
 			runtime.Gosched()
 		default:
-			time.Sleep(time.Duration(20+h%900) * time.Microsecond)
+			time.Sleep(time.Duration(20+(h>>8)%400) * time.Microsecond)
 		}
 	}
 	s.mu.Lock()
